@@ -40,7 +40,9 @@
 EXTENDS Integers, Sequences, FiniteSets, TLC, Json
 
 CONSTANTS MaxN,       \* flows of length 0..MaxN
-          MaxVer,     \* versions of the upstream data 1..MaxVer
+          LenProfiles,\* set of sequences: length of the upstream flow for data version 1, 2, ..
+                      \* (the number of versions is the length of the profile; a version of length
+                      \* 0 followed by a longer one makes loading an EMPTY stored flow observable)
           Scenarios,  \* pipelines explored: set of <<number of caches, shape>>
           Forms,      \* how a run is started (labels for the harness, same meaning)
           StopKinds,  \* "close", "abandon"
@@ -49,7 +51,8 @@ CONSTANTS MaxN,       \* flows of length 0..MaxN
                       \* temporary name, renamed on exhaustion; used to generate the command
                       \* histories of the export) | "final_name" (pinned code)
 
-VARIABLES n, nc, shape,           \* scenario: flow length, number of caches, which of pre/mid/post exist
+VARIABLES lens, nc, shape,        \* scenario: flow length per data version, number of caches, which of
+                                  \* pre/mid/post exist
           ver,                    \* current version of the upstream data
           file,                   \* per cache: [k |-> "A" absent | "F" loadable | "B" refused, c |-> content]
           stored,                 \* ghost: version completely stored in cache c, 0 = none
